@@ -49,6 +49,8 @@ def bare_init():
     Function.task_reaper = r or "bare"; Function.task_waiter = w or "bare"
     try:
         Function.init(HASS)
+        from custom_components.pyscript.decorator import DecoratorRegistry
+        DecoratorRegistry.init(HASS, _CE())          # registry of the built-in decorators (default subsystem), needed by ast_functiondef
     finally:
         Function.task_reaper, Function.task_waiter = r, w
 
